@@ -740,7 +740,7 @@ def write_evidence(prop, tier, seed, obligations, wall, checker_cmds, trusted, a
     ev = {"property_id": prop, "tier": tier, "seed": seed, "level": "proof", "coverage": cov,
           "assumptions": assumptions, "wall_s": round(wall, 2), "violations": violations}
     # debugging runs restricted with --only never overwrite the real evidence file
-    edir = os.path.join(VERIF, "logs" if partial else "evidence")
+    edir = os.environ.get("VERIF_EVIDENCE_DIR") or os.path.join(VERIF, "logs" if partial else "evidence")
     os.makedirs(edir, exist_ok=True)
     with open(os.path.join(edir, prop + (".partial-evidence.json" if partial else ".json")), "w") as f:
         json.dump(ev, f, indent=1)
